@@ -51,20 +51,33 @@ def check(repo, res, tier):
     a9(repo, res, canon)
 
 
-def asserted_calls(test, pol):
-    """Call nodes whose truth is asserted when `test` evaluates to `pol`"""
+def asserted_calls(test, pol, flag=None):
+    """Call nodes whose truth is asserted when `test` evaluates to `pol`; `flag(name)` gives the
+    value a local flag holds at the test (`ok = pred(...)` ... `if ok:`)"""
     if isinstance(test, ast.UnaryOp) and isinstance(test.op, ast.Not):
-        return asserted_calls(test.operand, not pol)
+        return asserted_calls(test.operand, not pol, flag)
     if isinstance(test, ast.BoolOp):
         if isinstance(test.op, ast.And) == pol:
             out = []
             for v in test.values:
-                out += asserted_calls(v, pol)
+                out += asserted_calls(v, pol, flag)
             return out
         return []
     if isinstance(test, ast.Call) and pol:
         return [test]
+    if isinstance(test, ast.Name) and flag is not None:
+        v = flag(test.id)
+        if v is not None and not isinstance(v, ast.Name):
+            return asserted_calls(v, pol, None)
     return []
+
+
+def tests_before(p, i):
+    """(test event, resolver of local flags at that test) for the tests of path p before event i"""
+    from .common import reaching_value
+    for k, x in enumerate(p.events[:i]):
+        if x.kind == 'test':
+            yield x, (lambda nm, k=k: reaching_value(p, k, nm))
 
 
 def a1(repo, res, canon, pc, logic):
@@ -87,11 +100,10 @@ def a1(repo, res, canon, pc, logic):
             for i, e in enumerate(p.events):
                 if not stmt_contains(e, lambda x: x is node):
                     continue
-                tests = [x for x in p.events[:i] if x.kind == 'test']
                 ready = cap = None
                 checked = False
-                for x in tests:
-                    for c in asserted_calls(x.node, x.pol):
+                for x, flag in tests_before(p, i):
+                    for c in asserted_calls(x.node, x.pol, flag):
                         if isinstance(c, ast.Call) and call_name(c) == 'is_ready' and canon.c(c.func.value, fr) == obs:
                             a = bound_args(repo, 'Observation.is_ready', c, fr)
                             ready = a
@@ -340,12 +352,11 @@ def a8(repo, res, canon, logic):
                 for i, e in enumerate(p.events):
                     if e.node is n:
                         fin = False
-                        for x in p.events[:i]:
-                            if x.kind == 'test':
-                                for c in asserted_calls(x.node, x.pol):
-                                    if isinstance(c, ast.Call) and call_name(c) == 'is_finished' and \
-                                            canon.c(c.func.value, fr) == tgt:
-                                        fin = True
+                        for x, flag in tests_before(p, i):
+                            for c in asserted_calls(x.node, x.pol, flag):
+                                if isinstance(c, ast.Call) and call_name(c) == 'is_finished' and \
+                                        canon.c(c.func.value, fr) == tgt:
+                                    fin = True
                         if not fin:
                             ok, why = False, 'FINISHED is written without is_finished() of that observation being true'
             g = repo.func('Telescope.finish_observation')
